@@ -181,7 +181,8 @@ class Kernel:
 
     def _carray(self, ty, n):
         n = n.e if isinstance(n, CInt) else n
-        fl = self._flags()
+        if n > 16 and rt.MODE == "bv":
+            return rt.ZArray(n, ty)
         return View([CInt.const(0, ctype(ty)) for _ in range(n)], ctype(ty), False, False, "carray")
 
     def _addr(self, x):
